@@ -1216,6 +1216,20 @@ fn main() {
                 writeln!(w, "{}", json!({"full": full, "find": find})).unwrap();
             }
         }
+        "fromfile" => {
+            // RegExpBuilder::from_file(path) for each path read from stdin: the test cases it holds, or the panic message
+            for l in stdin.lock().lines() {
+                let path = l.unwrap();
+                let r = catch_unwind(AssertUnwindSafe(|| {
+                    let b = RegExpBuilder::from_file(path.trim());
+                    grex::verif::builder_state(&b)
+                }));
+                match r {
+                    Ok(st) => writeln!(w, "{}", json!({"state": st})).unwrap(),
+                    Err(e) => writeln!(w, "{}", json!({"panic": panic_msg(e)})).unwrap(),
+                }
+            }
+        }
         "setters" => {
             writeln!(w, "{}", setters_dump()).unwrap();
         }
